@@ -66,7 +66,7 @@ func ValidateCredentialStatus(ctx context.Context, credStatus CredentialStatus,
 	}
 
 	revNonce := new(big.Int).SetUint64(credStatus.RevocationNonce)
-	proofValid := merkletree.VerifyProof(revocationRootHash,
+	proofValid := verifyMerkleTreeProof(revocationRootHash,
 		&revocationStatus.MTP, revNonce, big.NewInt(0))
 	if !proofValid {
 		return revocationStatus, fmt.Errorf("proof validation failed. revNonce=%d", revNonce)
@@ -77,6 +77,41 @@ func ValidateCredentialStatus(ctx context.Context, credStatus CredentialStatus,
 	}
 
 	return revocationStatus, nil
+}
+
+// rootFromMerkleTreeProof is merkletree.RootFromProof for proofs that come
+// from untrusted JSON: a proof whose auxiliary node lacks its key or value, or
+// which has more siblings than a tree can have levels, makes the library
+// panic; such proofs are reported as errors instead.
+func rootFromMerkleTreeProof(proof *merkletree.Proof,
+	k, v *big.Int) (root *merkletree.Hash, err error) {
+
+	if proof == nil {
+		return nil, errors.New("merkle tree proof is not set")
+	}
+	if proof.NodeAux != nil &&
+		(proof.NodeAux.Key == nil || proof.NodeAux.Value == nil) {
+		return nil, errors.New("merkle tree proof has incomplete auxiliary node")
+	}
+	defer func() {
+		if r := recover(); r != nil {
+			root = nil
+			err = errors.Errorf("malformed merkle tree proof: %v", r)
+		}
+	}()
+	return merkletree.RootFromProof(proof, k, v)
+}
+
+// verifyMerkleTreeProof is merkletree.VerifyProof on top of
+// rootFromMerkleTreeProof.
+func verifyMerkleTreeProof(rootKey *merkletree.Hash, proof *merkletree.Proof,
+	k, v *big.Int) bool {
+
+	rootFromProof, err := rootFromMerkleTreeProof(proof, k, v)
+	if err != nil || rootKey == nil {
+		return false
+	}
+	return rootKey.Equals(rootFromProof)
 }
 
 func coerceCredentialStatus(credStatus any) (*CredentialStatus, error) {
